@@ -137,15 +137,10 @@ Fixpoint contains_sub (sub s : string) : bool :=
 Definition f25 (lines : term) (asks_weblist : bool) : list Z :=
   [].  (* F25 repaired in /repo (b775123): no class; the witness is still replayed and must not hang *)
 
-(* class 38 = F38: a -divide_by flag whose reciprocal overflows float64 AND a /flamegraph request *)
-Definition f38 (i : term) : list Z :=
-  let divs := filter (fun a => has_prefix "-divide_by=" a) (gss (gn i 1)) in
-  let tiny (a : string) : bool :=
-    match pf_of (gn i 5) (drop 11 a) with
-    | Some (TL [TZ n; TZ d]) => reciprocal_overflows n d
-    | _ => false
-    end in
-  if existsb tiny divs && existsb (fun rq => String.eqb (gs (gn rq 0)) "/flamegraph") (gl (gn i 2)) then [38] else [].
+(* F38 (a -divide_by whose reciprocal overflows float64 made /flamegraph answer 500) is repaired in /repo:
+   reportOptions rejects such a divisor, the request is answered 400 like any report error.  No class;
+   the witness is still replayed on every run. *)
+Definition f38 (i : term) : list Z := [].
 
 Definition cls_C09 (i : term) : list Z :=
   let op := gs (gn i 0) in
